@@ -80,12 +80,14 @@ def explore_subtree(fn, params, prefix, model, max_paths, known_open, seed, samp
     """DFS below (prefix, model). Returns (InstanceResult partial, leftover [(prefix, model)])."""
     out = InstanceResult(idx, params)
     stack = [(list(prefix), model)]
+    root_chunk = not prefix
     n = 0
     while stack:
         if n >= max_paths or (deadline is not None and time.time() > deadline):
             break
         pre, mdl = stack.pop()
-        keep = _want_sample(0, tuple(pre), seed, sample_rate)
+        # sampled for trace validation: hashed sampling plus, deterministically, the first two completed paths of every instance
+        keep = _want_sample(0, tuple(pre), seed, sample_rate) or (root_chunk and len(out.samples) < 2)
         try:
             res, pending = core.run_path(fn, params, pre, mdl, out.stats, known_open, keep_obs=keep, seed=seed)
         except core.Inconclusive as e:   # raised outside a path body (should not happen)
